@@ -387,6 +387,7 @@ func cmdCheck(args []string) int {
 		fmt.Printf("VIOLATION property=%s replay=%s %s no-failing-input-found\n", *prop, path, f)
 		exit = 1
 	}
+	replays := 0
 	for _, v := range viols {
 		path := filepath.Join(*verif, "replays", *prop, sanitize(v.o.Name)+".json")
 		rec := map[string]any{"property": *prop, "obligation": v.o.Name, "function": v.o.Fn, "kind": v.o.Kind, "clause": v.o.Src, "why": v.why,
@@ -395,7 +396,8 @@ func cmdCheck(args []string) int {
 			rec["per_solver"] = v.it.all
 		}
 		suffix := " no-failing-input-found"
-		if v.o.Result == "sat" && v.it != nil {
+		if v.o.Result == "sat" && v.it != nil && replays < 4 {
+			replays++
 			if rp := tryReplay(eng, *verif, *prop, v.it, rec); rp == "confirmed" {
 				suffix = ""
 			}
